@@ -3,33 +3,40 @@
 // Source: a real storage.Volume inside a storage.Store, served by the real
 // VolumeServer gRPC service (VolumeSyncStatus, VolumeIncrementalCopy) on a
 // 127.0.0.1:0 listener.  Backup: a stand-alone storage.Volume in another
-// directory, driven by a line-by-line mirror of weed/command/backup.go runBackup
-// (that function lives in package command, needs a master lookup and global
-// flags): operation.GetVolumeSyncStatus over gRPC, storage.NewVolume, the
-// revision comparison with the local Compact2+CommitCompact, the revision
-// overwrite, the destroy-and-recreate branch, and the real
-// Volume.IncrementalBackup(server, dialOption) over gRPC.  Only deviation: the
-// local Compact2 is called with preallocate 0 instead of 30 GiB (fallocate of
-// 30 GiB per backup volume would fill the scratch disk).
+// directory, driven by command.VerifC37RunBackup (hook weed/command/verif_c37.go):
+// the text of weed/command/backup.go runBackup from the GetVolumeSyncStatus call to
+// its end, verbatim except that the 30 GiB preallocation literal of the local
+// Compact2 is a parameter (0 here: 30 GiB per backup volume would fill the scratch
+// disk).  The harness compares that text with backup.go on every run (field `sync`
+// of every case).
+//
+// Clock: doWriteRequest/doDeleteRequest store time.Now().UnixNano() as AppendAtNs
+// with no monotonic guard.  To make the clock an INPUT, the harness overwrites the
+// 8 AppendAtNs bytes of the record the real write path just appended to the source
+// .dat (offset: old .dat size + header 16 + Size + checksum 4) with the operation's
+// timestamp.  Every later reader (readAppendAtNs, BinarySearchByAppendAtNs, the
+// compaction's ReadData/Append, the byte copy) sees that value.
 package main
 
 import (
+	"encoding/binary"
 	"fmt"
+	"io/ioutil"
 	"net"
 	"os"
+	"path/filepath"
 	"runtime"
 	"strconv"
 	"strings"
-	"time"
 
 	"google.golang.org/grpc"
 
+	"github.com/chrislusf/seaweedfs/weed/command"
 	"github.com/chrislusf/seaweedfs/weed/operation"
 	"github.com/chrislusf/seaweedfs/weed/pb/volume_server_pb"
 	weed_server "github.com/chrislusf/seaweedfs/weed/server"
 	"github.com/chrislusf/seaweedfs/weed/storage"
 	"github.com/chrislusf/seaweedfs/weed/storage/needle"
-	"github.com/chrislusf/seaweedfs/weed/storage/super_block"
 	"github.com/chrislusf/seaweedfs/weed/storage/types"
 	"github.com/chrislusf/seaweedfs/weed/util"
 	fla9 "github.com/chrislusf/seaweedfs/weed/util/fla9"
@@ -48,23 +55,64 @@ func pattern(val, n int) []byte {
 	return b
 }
 
-// decode maps bytes read back to the (val, len) that generated them; val 255 = no pattern matches
-func decode(b []byte) (int, int) {
-	for val := 0; val < 8; val++ {
-		if string(pattern(val, len(b))) == string(b) {
-			return val, len(b)
-		}
+// the optional needle fields are a function of the tag: tags 0,1 carry data only,
+// tag 2 name+mime+last-modified, tag 3 name+last-modified+pairs
+func nameOf(val int) string    { return fmt.Sprintf("f%d.txt", val) }
+func lastModOf(val int) uint64 { return uint64(1600000000 + val) }
+
+const mimeStr = "text/x"
+const pairsStr = `{"a":"b"}`
+
+// metaBytes = bytes the optional fields add to Size (each with its length prefix)
+func metaBytes(val int) int {
+	switch val {
+	case 2:
+		return (1 + 6) + (1 + 6) + 5
+	case 3:
+		return (1 + 6) + 5 + (2 + 9)
 	}
-	return 255, len(b)
+	return 0
 }
 
-var lastNs int64
-
-// tick makes the next time.Now().UnixNano() strictly larger (by >= 2 us) than any AppendAtNs handed out so far
-func tick() {
-	for time.Now().UnixNano() < lastNs+2000 {
+func mkNeedle(k, val, n int) *needle.Needle {
+	data := pattern(val, n)
+	nd := &needle.Needle{Id: types.NeedleId(k), Cookie: cookie, Data: data, Checksum: needle.NewCRC(data)}
+	if val >= 2 {
+		nd.Name = []byte(nameOf(val))
+		nd.SetHasName()
+		nd.LastModified = lastModOf(val)
+		nd.SetHasLastModifiedDate()
 	}
-	lastNs = time.Now().UnixNano()
+	if val == 2 {
+		nd.Mime = []byte(mimeStr)
+		nd.SetHasMime()
+	}
+	if val == 3 {
+		nd.Pairs = []byte(pairsStr)
+		nd.PairsSize = uint16(len(nd.Pairs))
+		nd.SetHasPairs()
+	}
+	return nd
+}
+
+// decode maps a needle read back to the (tag, len) that generated it; tag 255 = the
+// data bytes match no pattern, or cookie/flags/name/mime/last-modified/pairs/TTL are
+// not exactly what mkNeedle wrote for that tag
+func decode(n *needle.Needle) (int, int) {
+	b := n.Data
+	for val := 0; val < 4; val++ {
+		if string(pattern(val, len(b))) != string(b) {
+			continue
+		}
+		w := mkNeedle(int(n.Id), val, len(b))
+		if n.Cookie == w.Cookie && n.Flags == w.Flags && string(n.Name) == string(w.Name) && string(n.Mime) == string(w.Mime) &&
+			n.LastModified == w.LastModified && string(n.Pairs) == string(w.Pairs) && n.Ttl.String() == "" &&
+			n.Checksum == w.Checksum && int(n.DataSize) == len(b) {
+			return val, len(b)
+		}
+		return 255, len(b)
+	}
+	return 255, len(b)
 }
 
 type env struct {
@@ -75,20 +123,41 @@ type env struct {
 	bdir   string
 }
 
-func (e *env) write(k, val, n int) {
-	tick()
-	data := pattern(val, n)
-	nd := &needle.Needle{Id: types.NeedleId(k), Cookie: cookie, Data: data, Checksum: needle.NewCRC(data)}
-	_, err := e.s.WriteVolumeNeedle(e.vid, nd, false)
+// setClock overwrites the AppendAtNs of the record appended at [off, end of .dat) whose Size field is size
+func (e *env) setClock(off uint64, size int, ts uint64) {
+	sv := e.s.GetVolume(e.vid)
+	f, err := os.OpenFile(sv.FileName(".dat"), os.O_RDWR, 0)
 	hx.Must(err)
-	tick()
+	var b [8]byte
+	binary.BigEndian.PutUint64(b[:], ts)
+	_, err = f.WriteAt(b[:], int64(off)+int64(types.NeedleHeaderSize)+int64(size)+int64(needle.NeedleChecksumSize))
+	hx.Must(err)
+	hx.Must(f.Close())
 }
 
-func (e *env) del(k int) {
-	tick()
+func (e *env) write(k, val, n int, ts uint64) bool {
+	off, _, _ := e.s.GetVolume(e.vid).FileStat()
+	nd := mkNeedle(k, val, n)
+	_, err := e.s.WriteVolumeNeedle(e.vid, nd, false)
+	hx.Must(err)
+	end, _, _ := e.s.GetVolume(e.vid).FileStat()
+	if end == off {
+		return false // isFileUnchanged
+	}
+	e.setClock(off, int(nd.Size), ts)
+	return true
+}
+
+func (e *env) del(k int, ts uint64) bool {
+	off, _, _ := e.s.GetVolume(e.vid).FileStat()
 	_, err := e.s.DeleteVolumeNeedle(e.vid, &needle.Needle{Id: types.NeedleId(k), Cookie: cookie})
 	hx.Must(err)
-	tick()
+	end, _, _ := e.s.GetVolume(e.vid).FileStat()
+	if end == off {
+		return false
+	}
+	e.setClock(off, 0, ts)
+	return true
 }
 
 func (e *env) compact() {
@@ -97,35 +166,58 @@ func (e *env) compact() {
 	hx.Must(err)
 }
 
-// runBackup mirrors weed/command/backup.go runBackup after the master lookup.
-func (e *env) runBackup() {
-	vid := e.vid
-	stats, err := operation.GetVolumeSyncStatus(e.server, e.dial, uint32(vid))
-	hx.Must(err)
-	ttl, err := needle.ReadTTL(stats.Ttl)
-	hx.Must(err)
-	replication, err := super_block.NewReplicaPlacementFromString(stats.Replication)
-	hx.Must(err)
-	v, err := storage.NewVolume(e.bdir, e.bdir, "", vid, storage.NeedleMapInMemory, replication, ttl, 0, 0)
-	hx.Must(err)
+// reload unmounts and mounts the source volume: .idx and super block are re-read from disk
+func (e *env) reload() {
+	hx.Must(e.s.UnmountVolume(e.vid))
+	hx.Must(e.s.MountVolume(e.vid))
+}
 
-	if v.SuperBlock.CompactionRevision < uint16(stats.CompactRevision) {
-		hx.Must(v.Compact2(0 /* runBackup: 30 GiB */, 0))
-		hx.Must(v.CommitCompact())
-		v.SuperBlock.CompactionRevision = uint16(stats.CompactRevision)
-		v.DataBackend.WriteAt(v.SuperBlock.Bytes(), 0)
-	}
-
-	datSize, _, _ := v.FileStat()
-
-	if datSize > stats.TailOffset {
-		v.Destroy()
-		v, err = storage.NewVolume(e.bdir, e.bdir, "", vid, storage.NeedleMapInMemory, replication, ttl, 0, 0)
+// runBackup = the real runBackup text after the master lookup (see the hook); returns which branches it will take
+func (e *env) runBackup() (localCompact, destroy bool) {
+	stats, err := operation.GetVolumeSyncStatus(e.server, e.dial, uint32(e.vid))
+	hx.Must(err)
+	if _, serr := os.Stat(filepath.Join(e.bdir, strconv.Itoa(int(e.vid))+".dat")); serr == nil {
+		bv, err := storage.NewVolume(e.bdir, e.bdir, "", e.vid, storage.NeedleMapInMemory, nil, nil, 0, 0)
 		hx.Must(err)
+		localCompact = bv.SuperBlock.CompactionRevision < uint16(stats.CompactRevision)
+		bdat, _, _ := bv.FileStat()
+		destroy = !localCompact && bdat > stats.TailOffset // with a local compaction the size is only known afterwards
+		bv.Close()
 	}
-	defer v.Close()
+	if !command.VerifC37RunBackup(e.server, e.dial, e.vid, e.bdir, "", "", "", 0) {
+		panic("runBackup returned false")
+	}
+	return
+}
 
-	hx.Must(v.IncrementalBackup(e.server, e.dial))
+// transcriptionInSync: the hook's body is backup.go's runBackup from the GetVolumeSyncStatus call on
+func transcriptionInSync() bool {
+	dir := filepath.Dir(command.VerifC37SourceFile())
+	real, err1 := ioutil.ReadFile(filepath.Join(dir, "backup.go"))
+	mine, err2 := ioutil.ReadFile(filepath.Join(dir, "verif_c37.go"))
+	if err1 != nil || err2 != nil {
+		return false
+	}
+	cut := func(src, fn string) string {
+		i := strings.Index(src, "\nfunc "+fn+"(")
+		if i < 0 {
+			return "?nofunc"
+		}
+		src = src[i+1:]
+		j := strings.Index(src, "\n}\n")
+		if j < 0 {
+			return "?noend"
+		}
+		src = src[:j]
+		k := strings.Index(src, "\tstats, err := operation.GetVolumeSyncStatus(")
+		if k < 0 {
+			return "?nostart"
+		}
+		return src[k:]
+	}
+	a := strings.ReplaceAll(cut(string(real), "runBackup"), "30*1024*1024*1024", "preallocate")
+	b := cut(string(mine), "VerifC37RunBackup")
+	return a == b && !strings.HasPrefix(a, "?")
 }
 
 func readTerm(n *needle.Needle, cnt int, err error) (string, bool) {
@@ -136,7 +228,7 @@ func readTerm(n *needle.Needle, cnt int, err error) (string, bool) {
 		panic(err)
 	}
 	_ = cnt
-	val, l := decode(n.Data)
+	val, l := decode(n)
 	return fmt.Sprintf("Some (%d, %d)", val, l), true
 }
 
@@ -145,7 +237,7 @@ func (e *env) observe(nkeys int) (string, bool) {
 	var sr, br []string
 	served := false
 	sv := e.s.GetVolume(e.vid)
-	sdat, _, _ := sv.FileStat()
+	sdat, sidx, _ := sv.FileStat()
 	for k := 1; k <= nkeys; k++ {
 		n := &needle.Needle{Id: types.NeedleId(k), Cookie: cookie}
 		cnt, err := e.s.ReadVolumeNeedle(e.vid, n, nil)
@@ -155,7 +247,7 @@ func (e *env) observe(nkeys int) (string, bool) {
 	}
 	bv, err := storage.NewVolume(e.bdir, e.bdir, "", e.vid, storage.NeedleMapInMemory, nil, nil, 0, 0)
 	hx.Must(err)
-	bdat, _, _ := bv.FileStat()
+	bdat, bidx, _ := bv.FileStat()
 	for k := 1; k <= nkeys; k++ {
 		n := &needle.Needle{Id: types.NeedleId(k), Cookie: cookie}
 		cnt, err := bv.VerifC37ReadNeedle(n)
@@ -164,21 +256,26 @@ func (e *env) observe(nkeys int) (string, bool) {
 	}
 	brev := bv.SuperBlock.CompactionRevision
 	bv.Close()
-	return fmt.Sprintf("{| o_sdat := %d; o_bdat := %d; o_srev := %d; o_brev := %d; o_sreads := [%s]; o_breads := [%s] |}",
-		sdat, bdat, sv.SuperBlock.CompactionRevision, brev, strings.Join(sr, "; "), strings.Join(br, "; ")), served
+	es := uint64(types.NeedleMapEntrySize)
+	if sidx%es != 0 || bidx%es != 0 {
+		panic("idx size is not a multiple of the entry size")
+	}
+	return fmt.Sprintf("{| o_sdat := %d; o_bdat := %d; o_srev := %d; o_brev := %d; o_sidx := %d; o_bidx := %d; o_sreads := [%s]; o_breads := [%s] |}",
+		sdat, bdat, sv.SuperBlock.CompactionRevision, brev, sidx/es, bidx/es, strings.Join(sr, "; "), strings.Join(br, "; ")), served
 }
 
 type op struct {
-	kind      byte // W D C B
+	kind      byte // W D C B, R = reload the source volume (no model step)
 	k, val, n int
+	ts        uint64
 }
 
 func (o op) term() string {
 	switch o.kind {
 	case 'W':
-		return fmt.Sprintf("Write %d %d %d", o.k, o.val, o.n)
+		return fmt.Sprintf("Write %d %d %d %d %d", o.k, o.val, o.n, metaBytes(o.val), o.ts)
 	case 'D':
-		return fmt.Sprintf("Delete %d", o.k)
+		return fmt.Sprintf("Delete %d %d", o.k, o.ts)
 	case 'C':
 		return "Compact"
 	}
@@ -188,24 +285,42 @@ func (o op) term() string {
 func (o op) canon() string {
 	switch o.kind {
 	case 'W':
-		return fmt.Sprintf("W%d.%d.%d", o.k, o.val, o.n)
+		return fmt.Sprintf("W%d.%d.%d@%d", o.k, o.val, o.n, o.ts)
 	case 'D':
-		return fmt.Sprintf("D%d", o.k)
+		return fmt.Sprintf("D%d@%d", o.k, o.ts)
 	}
 	return string(o.kind)
 }
 
-func genHistory(r *hx.Rng, nkeys int, pulled bool) []op {
+// clock modes: 0 strictly increasing; 1 with equal readings and backward steps
+func genHistory(r *hx.Rng, nkeys int, pulled bool, noisy bool, reloads bool) []op {
 	nops := r.Range(4, 24)
 	var h []op
 	dirty := false
+	clock := uint64(r.Range(1, 50))
+	nextTs := func() uint64 {
+		x := r.Intn(100)
+		switch {
+		case !noisy || x < 70:
+			clock += uint64(r.Range(1, 5))
+			return clock
+		case x < 85:
+			return clock // the same nanosecond again
+		default:
+			back := uint64(r.Range(1, 12))
+			if back >= clock {
+				return 1
+			}
+			return clock - back // the clock stepped back
+		}
+	}
 	for len(h) < nops {
 		switch x := r.Intn(100); {
 		case x < 45:
-			h = append(h, op{kind: 'W', k: r.Range(1, nkeys), val: r.Intn(4), n: r.PickInt(lens)})
+			h = append(h, op{kind: 'W', k: r.Range(1, nkeys), val: r.Intn(4), n: r.PickInt(lens), ts: nextTs()})
 			dirty = true
 		case x < 60:
-			h = append(h, op{kind: 'D', k: r.Range(1, nkeys)})
+			h = append(h, op{kind: 'D', k: r.Range(1, nkeys), ts: nextTs()})
 			dirty = true
 		case x < 74:
 			if pulled && dirty {
@@ -213,6 +328,8 @@ func genHistory(r *hx.Rng, nkeys int, pulled bool) []op {
 				dirty = false
 			}
 			h = append(h, op{kind: 'C'})
+		case x < 78 && reloads:
+			h = append(h, op{kind: 'R'})
 		default:
 			h = append(h, op{kind: 'B'})
 			dirty = false
@@ -225,12 +342,38 @@ func genHistory(r *hx.Rng, nkeys int, pulled bool) []op {
 	return h
 }
 
-// the witness of finding 0: key 1 is written after the last pull and then moved
-// into the key-ordered region by a source compaction
-var witness0 = []op{{kind: 'W', k: 3, val: 1, n: 8}, {kind: 'B'}, {kind: 'W', k: 1, val: 2, n: 8}, {kind: 'C'}, {kind: 'B'}, {kind: 'B'}, {kind: 'W', k: 2, val: 3, n: 8}, {kind: 'B'}}
+func W(k, val, n int, ts uint64) op { return op{kind: 'W', k: k, val: val, n: n, ts: ts} }
+func D(k int, ts uint64) op         { return op{kind: 'D', k: k, ts: ts} }
 
-// a late start: the search lands inside the appended region, an overwrite made before the compaction is never pulled
-var witness0b = []op{{kind: 'W', k: 1, val: 1, n: 8}, {kind: 'W', k: 2, val: 1, n: 8}, {kind: 'B'}, {kind: 'W', k: 1, val: 2, n: 17}, {kind: 'D', k: 2}, {kind: 'C'}, {kind: 'W', k: 3, val: 0, n: 3}, {kind: 'B'}, {kind: 'B'}}
+var B, C, R = op{kind: 'B'}, op{kind: 'C'}, op{kind: 'R'}
+
+const MiB = 1 << 20
+
+type fixed struct {
+	kind  string
+	nkeys int
+	h     []op
+}
+
+// deterministic first cases: the witnesses of the findings (the Coq witnesses of
+// props/C37.v followed by further runs), the examples of props/C37.v, and transport-size cases
+var fixedCases = []fixed{
+	// finding 0: key 1 is written after the last pull and then moved into the key-ordered region by a source compaction
+	{"witness-compacted-before-pull", 3, []op{W(3, 1, 8, 10), B, W(1, 2, 8, 20), C, B, B, W(2, 3, 8, 30), B}},
+	// finding 0, a late start: the search lands inside the appended region, an overwrite made before the compaction is never pulled
+	{"witness-compacted-before-pull-late-start", 3, []op{W(1, 1, 8, 10), W(2, 1, 8, 20), B, W(1, 2, 17, 30), D(2, 40), C, W(3, 0, 3, 50), B, B}},
+	// finding 0, second form: the compaction drops an unpulled tombstone, the backup keeps serving the deleted blob
+	{"witness-delete-resurrected", 3, []op{W(1, 1, 8, 10), W(2, 1, 8, 20), B, D(1, 30), W(3, 2, 8, 40), C, B, B}},
+	// finding 1: no compaction; the clock reads the same nanosecond twice / steps back
+	{"witness-equal-ts", 3, []op{W(1, 1, 8, 10), B, W(2, 2, 8, 10), B, B, W(3, 1, 8, 20), B}},
+	{"witness-clock-step", 3, []op{W(1, 1, 8, 20), B, W(2, 2, 8, 15), B, B}},
+	// props/C37.v c37_example, c37_example_harmless (+ the destroy-and-full-copy run of c37_example_destroy)
+	{"example", 4, []op{W(2, 1, 8, 1), W(1, 1, 300, 2), B, W(1, 2, 17, 3), D(2, 4), W(3, 0, 3, 5), B, C, W(2, 3, 40, 6), B, B, C, C, W(1, 0, 1, 7), B}},
+	{"example-harmless-recopy-destroy", 7, []op{W(5, 1, 8, 15), W(3, 1, 8, 18), W(2, 1, 8, 20), B, W(1, 1, 8, 60), B, W(7, 1, 8, 70), W(7, 2, 8, 65), C, B, B, B}},
+	// more than one 2 MiB chunk of sendFileContent per run, a chunk boundary inside a needle, reload of the source in between
+	{"transport-3MiB", 4, []op{W(1, 1, MiB+17, 10), W(2, 2, MiB, 20), W(3, 3, MiB+300, 30), B, R, W(1, 0, 2*MiB+40, 40), D(2, 50), B, B}},
+	{"transport-5MiB-compacted", 3, []op{W(1, 1, 2*MiB+1, 10), W(2, 3, 2*MiB+3, 20), W(1, 2, MiB, 30), B, C, W(3, 2, MiB-1, 40), B, R, B}},
+}
 
 func main() {
 	out := hx.Flags("C37", 200)
@@ -270,25 +413,22 @@ func main() {
 	go gs.Serve(lis)
 	defer gs.Stop()
 	e := &env{s: s, server: "127.0.0.1:" + strconv.Itoa(port-10000), dial: grpc.WithInsecure()}
+	sync := transcriptionInSync()
+	out.Count(fmt.Sprintf("runBackup-transcription-in-sync:%v", sync), 1)
 
-	out.Rule = "cases 0,1 = fixed witnesses of finding 0; then random histories (4..24 ops, always ending with a backup run) of Write(key,val<4,len in {1,3,8,17,40,300}) / Delete(key) on the source volume (Store.WriteVolumeNeedle/DeleteVolumeNeedle), Compact (Store.CompactVolume+CommitCompactVolume = Compact2+CommitCompact) and Backup (mirror of runBackup over the real gRPC VolumeSyncStatus/VolumeIncrementalCopy) over 3..6 keys; half of the cases insert a backup run before every compaction that follows unpulled mutations ('pulled'); after every backup run all keys are read on the source and on the freshly re-loaded backup volume; non-trivial = some source read served a blob at some backup run; distinct = canonical op list"
+	out.Rule = "cases 0.." + strconv.Itoa(len(fixedCases)-1) + " fixed: witnesses of findings 0 (three forms) and 1 (equal clock reading, clock step back), the examples of props/C37.v (incl. superset re-copy and destroy-and-full-copy), two transport cases (3-5 MiB per run: several 2 MiB chunks of sendFileContent, source reload); then random histories (4..24 ops, always ending with a backup run) of Write(key,tag<4,len in {1,3,8,17,40,300},AppendAtNs) / Delete(key,AppendAtNs) on the source volume (Store.WriteVolumeNeedle/DeleteVolumeNeedle; tags 2,3 carry name/mime/last-modified/pairs; the AppendAtNs bytes of the appended record are then overwritten with the op's clock reading), Compact (Store.CompactVolume+CommitCompactVolume = Compact2+CommitCompact), Reload (Unmount+Mount of the source volume, 1/3 of the cases) and Backup (command.VerifC37RunBackup = runBackup's text over the real gRPC VolumeSyncStatus/VolumeIncrementalCopy) over 3..6 keys; classes: 'pulled' (backup run before every compaction that follows unpulled mutations, strictly increasing clock), 'free' (compactions anywhere, increasing clock), 'noisy' (compactions anywhere; 15% equal clock readings, 15% backward steps); after every backup run all keys are read on the source and on the freshly re-loaded backup volume (all needle fields compared), .dat sizes, .idx entry counts and compaction revisions of both are recorded; non-trivial = some source read served a blob at some backup run; distinct = canonical op list"
 	root := hx.NewRng(out.Seed)
 	for i := 0; i < out.N; i++ {
 		r := root.Fork()
 		nkeys := r.Range(3, 6)
-		pulled := r.Chance(1, 2)
+		class := r.Intn(3)
+		reloads := r.Chance(1, 3)
 		var h []op
-		kind := "free"
-		switch {
-		case i == 0:
-			h, nkeys, kind = witness0, 3, "witness-compacted-before-pull"
-		case i == 1:
-			h, nkeys, kind = witness0b, 3, "witness-compacted-before-pull-late-start"
-		default:
-			h = genHistory(r, nkeys, pulled)
-			if pulled {
-				kind = "pulled"
-			}
+		kind := []string{"pulled", "free", "noisy"}[class]
+		if i < len(fixedCases) {
+			h, nkeys, kind = fixedCases[i].h, fixedCases[i].nkeys, fixedCases[i].kind
+		} else {
+			h = genHistory(r, nkeys, class == 0, class == 2, reloads)
 		}
 		e.vid = needle.VolumeId(i + 1)
 		hx.Must(e.s.AddVolume(e.vid, "", storage.NeedleMapInMemory, "000", "", 0, 0, types.HardDriveType))
@@ -297,20 +437,40 @@ func main() {
 		var ops, obs, canon []string
 		served := false
 		for _, o := range h {
-			ops = append(ops, o.term())
+			if o.kind != 'R' {
+				ops = append(ops, o.term())
+			}
 			canon = append(canon, o.canon())
 			switch o.kind {
 			case 'W':
-				e.write(o.k, o.val, o.n)
-				out.Count("op:write", 1)
+				if e.write(o.k, o.val, o.n, o.ts) {
+					out.Count("op:write", 1)
+				} else {
+					out.Count("op:write-unchanged", 1)
+				}
+				if o.n >= MiB {
+					out.Count("op:write>=1MiB", 1)
+				}
 			case 'D':
-				e.del(o.k)
-				out.Count("op:delete", 1)
+				if e.del(o.k, o.ts) {
+					out.Count("op:delete", 1)
+				} else {
+					out.Count("op:delete-absent", 1)
+				}
 			case 'C':
 				e.compact()
 				out.Count("op:compact", 1)
+			case 'R':
+				e.reload()
+				out.Count("op:reload-source", 1)
 			case 'B':
-				e.runBackup()
+				lc, de := e.runBackup()
+				if lc {
+					out.Count("backup:local-compact", 1)
+				}
+				if de {
+					out.Count("backup:destroy-recreate(no local compaction)", 1)
+				}
 				t, sv := e.observe(nkeys)
 				obs = append(obs, t)
 				served = served || sv
@@ -319,7 +479,7 @@ func main() {
 		}
 		hx.Must(e.s.DeleteVolume(e.vid))
 		os.RemoveAll(e.bdir)
-		term := fmt.Sprintf("({| nkeys := %d; ops := [%s]; impl := [%s] |})%%N", nkeys, strings.Join(ops, "; "), strings.Join(obs, "; "))
+		term := fmt.Sprintf("({| nkeys := %d; ops := [%s]; sync := %v; impl := [%s] |})%%N", nkeys, strings.Join(ops, "; "), sync, strings.Join(obs, "; "))
 		out.Add(term, strconv.Itoa(nkeys)+":"+strings.Join(canon, ";"), served, kind)
 	}
 	out.Write()
